@@ -70,6 +70,8 @@ pub struct Info {
     pub independent: Option<bool>,
     /// interleaving judged on this case
     pub interleave_checked: bool,
+    /// decompress_secure recorded exactly this decompression in the fresh SessionTracker
+    pub session_accounting_ok: Option<bool>,
     /// wall-clock limit of the library fired: the machine, not the code, is at fault
     pub time_limit: bool,
 }
@@ -220,6 +222,19 @@ pub fn evaluate(case: &Case, d: &[u8]) -> (Info, Result<(), Fail>) {
         f.message = format!("[{}] {}", f.signature, f.message);
         f.signature = format!("implode-bit-selector-not-invertible:{}", method_name(m));
     }
+    // Same for selectors with both ADPCM bits: the compressor encodes mono, the decoder decodes
+    // stereo; length, interleaving or the ±10 % size validation may be what notices.
+    let both = flags::ADPCM_MONO | flags::ADPCM_STEREO;
+    if let Err(f) = &mut r
+        && m & both == both
+        && m & flags::IMPLODE == 0
+        && info.outcome == "shrunk"
+        && !f.signature.starts_with("panic@")
+        && !f.signature.starts_with("own-output-rejected-as-bomb")
+    {
+        f.message = format!("[{}] {}", f.signature, f.message);
+        f.signature = format!("adpcm-both-bits-selector-not-invertible:{}", method_name(m));
+    }
     (info, r)
 }
 
@@ -305,7 +320,9 @@ fn eval_inner(case: &Case, d: &[u8], info: &mut Info) -> Result<(), Fail> {
             let f = reject_signature(via, m, &e, info);
             // Is the inversion itself right? (tells a limit problem from a codec problem)
             if f.signature.starts_with("own-output-rejected-as-") {
-                let relaxed = guard("decompress_secure", || {
+                // (entry name "decompress": whatever is wrong underneath gets the signature it
+                // would have had if the limits had not fired first)
+                let relaxed = guard("decompress", || {
                     decompress_secure(
                         stream,
                         c[0],
@@ -318,13 +335,14 @@ fn eval_inner(case: &Case, d: &[u8], info: &mut Info) -> Result<(), Fail> {
                 match relaxed {
                     Ok(o) => judge_output(case, d, &o, "decompress_secure(relaxed limits)", info)?,
                     Err(e2) => {
-                        return Err(Fail::new(
-                            format!(
-                                "own-output-rejected-even-with-relaxed-limits:{name}:{}",
-                                normalise_msg(&e2.to_string())
-                            ),
-                            format!("default limits: {e}; relaxed limits: {e2}"),
-                        ));
+                        let mut f2 = reject_signature(
+                            "decompress_secure(relaxed limits)",
+                            m,
+                            &e2,
+                            info,
+                        );
+                        f2.message = format!("default limits: {e}; {}", f2.message);
+                        return Err(f2);
                     }
                 }
             }
@@ -361,17 +379,9 @@ fn eval_inner(case: &Case, d: &[u8], info: &mut Info) -> Result<(), Fail> {
             first_diff(&out2, &out),
         ));
     }
+    // informational only (the statement says nothing about session accounting)
     let (bytes, files, _) = tracker.get_stats();
-    if bytes != out2.len() as u64 || files != 1 {
-        return Err(Fail::new(
-            "decompress_secure-session-accounting-wrong",
-            format!(
-                "tracker recorded {bytes} bytes / {files} files after one decompression of {} bytes",
-                out2.len()
-            ),
-        ));
-    }
-
+    info.session_accounting_ok = Some(bytes == out2.len() as u64 && files == 1);
     Ok(())
 }
 
